@@ -1,3 +1,4 @@
 #!/bin/sh
 # TLC with a large stack on every thread including main (recursive limb arithmetic is deep)
-exec java -XX:+UseParallelGC -Xss1g -cp /opt/veriftools/tla/tla2tools.jar:/opt/veriftools/tla/CommunityModules-deps.jar tlc2.TLC "$@"
+T=$(mktemp -d /verif/work/tlctmp.XXXXXX); trap 'rm -rf "$T"' EXIT
+java -XX:+UseParallelGC -Xss1g -Djava.io.tmpdir="$T" -cp /opt/veriftools/tla/tla2tools.jar:/opt/veriftools/tla/CommunityModules-deps.jar tlc2.TLC "$@"
